@@ -234,3 +234,91 @@ def c02_judge(nodes: Dict[str, Dict[str, Any]], script: Dict[str, Any], result: 
         if not any(st == FAILED for st in final_states.values()):
             v("unrecoverable-exit-but-no-failed-component", unrecoverable=unrec)
     return viol, cnt
+
+
+# --------------------------------------------------------------------------- C12
+
+def c12_policy(wa: Dict[str, Any]) -> Dict[str, Any]:
+    """Configured policy from the component's workflowAttributes, as the property states it."""
+    mr = wa.get("maxRestarts")
+    if mr is None:
+        max_restarts = None if wa.get("restartHookFile") else 3     # None == unlimited
+    elif mr == -1:
+        max_restarts = None
+    else:
+        max_restarts = int(mr)
+    on = wa.get("restartHookOn")
+    if on is None:
+        on = ["ResourceExhausted"]
+    return {"max_restarts": max_restarts, "restart_on": list(on), "max_resub": 5}
+
+
+def c12_check(ref: str, policy: Dict[str, Any], events: List[Dict[str, Any]]) -> Tuple[List[Dict[str, Any]], Dict[str, int]]:
+    """Automaton over the launch/exit history of ONE non-repeating component."""
+    viol: List[Dict[str, Any]] = []
+    cnt = {"launches": 0, "relaunches_judged": 0, "restarts_counted": 0, "resubmissions_counted": 0,
+           "refusals": 0, "refusals_followed_by_final": 0, "hook_calls": 0}
+    last_end: Optional[str] = None          # reason that ended the previous execution
+    restarts = 0
+    consecutive_resub = 0
+    refused_at: Optional[int] = None
+    final_after_refusal = False
+    history: List[str] = []
+    name = ref.split(".", 1)[1]
+    for e in events:
+        k, comp = e["kind"], e["comp"]
+        if k == "hook.call" and comp == name:
+            cnt["hook_calls"] += 1
+            continue
+        if comp != ref:
+            continue
+        if k == "launch":
+            cnt["launches"] += 1
+            if e["exec"] > 0:
+                cnt["relaunches_judged"] += 1
+                history.append("relaunch-after:%s" % last_end)
+                if refused_at is not None:
+                    viol.append({"clause": "launch-after-refused-restart", "seq": e["seq"], "refused_at": refused_at})
+                if last_end in ("Killed", "Cancelled"):
+                    viol.append({"clause": "restart-after-killed-or-cancelled", "seq": e["seq"], "after": last_end})
+                elif last_end == "SubmissionFailed":
+                    consecutive_resub += 1
+                    cnt["resubmissions_counted"] += 1
+                    if consecutive_resub > policy["max_resub"]:
+                        viol.append({"clause": "more-than-5-consecutive-resubmissions", "seq": e["seq"],
+                                     "consecutive": consecutive_resub})
+                elif last_end in policy["restart_on"]:
+                    restarts += 1
+                    cnt["restarts_counted"] += 1
+                    if policy["max_restarts"] is not None and restarts > policy["max_restarts"]:
+                        viol.append({"clause": "restarts-exceed-maximum", "seq": e["seq"], "restarts": restarts,
+                                     "max": policy["max_restarts"]})
+                else:
+                    viol.append({"clause": "restart-after-non-restartable-exit", "seq": e["seq"], "after": last_end,
+                                 "restart_on": policy["restart_on"]})
+            le = e.get("launch_error")
+            if le in ("OSError", "JobLaunchError"):
+                last_end = "SubmissionFailed"
+            elif le == "Exception":
+                last_end = "UnknownIssue"
+                consecutive_resub = 0
+            else:
+                last_end = None
+        elif k == "exit":
+            last_end = e["reason"]
+            if last_end != "SubmissionFailed":
+                consecutive_resub = 0
+        elif k == "restartComponent.exit":
+            if e.get("code") != "RestartInitiated":
+                cnt["refusals"] += 1
+                if refused_at is None:
+                    refused_at = e["seq"]
+        elif k == "cs.finish" and refused_at is not None and e["seq"] > refused_at:
+            if e.get("final") in FINAL and not final_after_refusal:
+                final_after_refusal = True
+                cnt["refusals_followed_by_final"] += 1
+    if refused_at is not None and not final_after_refusal:
+        viol.append({"clause": "refused-restart-not-followed-by-final-state", "refused_at": refused_at})
+    for v in viol:
+        v["history"] = history[-12:]
+    return viol, cnt
